@@ -62,6 +62,17 @@ class Stack:
         self._cause_stack = []
         self.reparse_failures = []
         self.hooks = []  # fn(origin, sender, message) called before routing
+        # len(router_log) at every point of quiescence (a settle that drained everything in flight)
+        self.quiescent_marks = []
+        orig_settle = sim.settle
+
+        def settle(until=None):
+            r = orig_settle(until)
+            if until is None:
+                self.quiescent_marks.append(len(self.router_log))
+            return r
+
+        sim.settle = settle
         self.drivers = {}
         self.clients = []
         self.raw = []
